@@ -28,10 +28,10 @@ PROP = dict(
          "wells / selected wells) / DEFINE (13 templates over other UDQs, itself, FOPR, WOPR) / UPDATE ON|OFF|NEXT records; "
          "non-trivial = at least two DEFINE evaluations; distinct = distinct hash of (world, tokens) resp. deck text",
     stages=[
-        dict(harness="c17_udq", flavour="plain", cases={Q: 400000, T: 8000000}, timeout={Q: 900, T: 5400}),
+        dict(harness="c17_udq", flavour="plain", cases={Q: 400000, T: 16000000}, timeout={Q: 900, T: 5400}),
         # same generator, but expressions containing a construct whose library mechanism already has a finding are
         # regenerated: explores the rest of the space while those findings are open
-        dict(id="c17_udq_beyond_known", harness="c17_udq", flavour="plain", cases={Q: 200000, T: 4000000},
+        dict(id="c17_udq_beyond_known", harness="c17_udq", flavour="plain", cases={Q: 200000, T: 8000000},
              timeout={Q: 900, T: 5400}, args=["avoid_known=1", "hist_every=0"]),
     ],
     min_nontrivial={Q: 150000, T: 2250000},
